@@ -158,6 +158,32 @@ def sniff_all(res):
         finally:
             a.close()
             s.close()
+    # a client that has sent nothing yet when the read times out (or the socket does not block): the decision needs the
+    # first byte, so there is none to take -- returning the bare socket is deciding "plaintext" for a byte not yet seen
+    for mode in ("timeout", "nonblocking"):
+        a, s = socket.socketpair()
+        try:
+            if mode == "timeout":
+                s.settimeout(0.05)
+            else:
+                s.setblocking(False)
+            fs = FakeSelf()
+            fs.context = Ctx()
+            try:
+                got = BaseServer.wrap_socket(fs, s)
+                decided = "tls" if fs.context.wrapped else "plain"
+            except (BlockingIOError, socket.timeout, OSError):
+                decided = None
+            res.evaluations += 1
+            res.count("sniff-silent:" + str(decided))
+            if decided is not None:
+                a.sendall(b"\x16\x03\x01late hello")
+                res.violation("C02:sniff-before-first-byte", "the TLS decision was taken before the connection's first byte arrived", {"mode": mode},
+                              observed=f"decided {decided} with nothing received; the client then sends 0x16", required="no decision (the read's error propagates)",
+                              replay={"silent": mode})
+        finally:
+            a.close()
+            s.close()
     # without a TLS context nothing is ever wrapped
     a, s = socket.socketpair()
     try:
@@ -252,7 +278,7 @@ def run(ctx):
 
 def replay(data):
     rp = data["violation"]["replay"]
-    if "first_byte" in rp:
+    if "first_byte" in rp or "silent" in rp:
         r = Result()
         sniff_all(r)
         print(r.violations)
